@@ -304,6 +304,16 @@ def build(cfg, run):
     def mk_node(i):
         n = cfg["nodes"][i]
         ty = n["type"]
+        ekw = {}
+        if cfg.get("wiring") == "ctor":
+            # the other documented wiring style (tests/test_machine.py): the node receives its edge lists at construction
+            # time, in list order, and the edges are connected afterwards as well
+            ins = [edges[j] for j, e in enumerate(cfg["edges"]) if e["dst"] == i]
+            outs = [edges[j] for j, e in enumerate(cfg["edges"]) if e["src"] == i]
+            if ty != "source":
+                ekw["in_edges"] = ins
+            if ty != "sink":
+                ekw["out_edges"] = outs
         nid = n.get("id", "%s%d" % (ty[0].upper(), i))
         setup = n.get("setup", 0) / float(Q)
         if ty == "source":
@@ -312,27 +322,27 @@ def build(cfg, run):
                 iatv = iat["const"] / float(Q)
             else:
                 iatv = _script(iat, n.get("iat_after", HUGE * Q), run, i, "iat", Q)
-            obj = Source(env, nid, flow_item_type=n.get("kind", "item"), inter_arrival_time=iatv,
+            obj = Source(env, nid, **ekw, flow_item_type=n.get("kind", "item"), inter_arrival_time=iatv,
                          blocking=n.get("blocking", True), out_edge_selection=_selector(n.get("policy_out", "FIRST_AVAILABLE"), run, i, "out"))
         elif ty == "machine":
             pd = n.get("pd", [1])
             pdv = pd["const"] / float(Q) if isinstance(pd, dict) else _script(itertools.cycle(pd), 0, run, i, "pd", Q)
-            obj = Machine(env, nid, node_setup_time=setup, work_capacity=n.get("wc", 1), processing_delay=pdv,
+            obj = Machine(env, nid, **ekw, node_setup_time=setup, work_capacity=n.get("wc", 1), processing_delay=pdv,
                           blocking=n.get("blocking", True),
                           in_edge_selection=_selector(n.get("policy_in", "FIRST_AVAILABLE"), run, i, "in"),
                           out_edge_selection=_selector(n.get("policy_out", "FIRST_AVAILABLE"), run, i, "out"))
         elif ty == "sink":
-            obj = Sink(env, nid)
+            obj = Sink(env, nid, **ekw)
         elif ty == "splitter":
             pd = n.get("pd", [1])
             pdv = pd["const"] / float(Q) if isinstance(pd, dict) else _script(itertools.cycle(pd), 0, run, i, "pd", Q)
-            obj = Splitter(env, nid, node_setup_time=setup, processing_delay=pdv, blocking=n.get("blocking", True),
+            obj = Splitter(env, nid, **ekw, node_setup_time=setup, processing_delay=pdv, blocking=n.get("blocking", True),
                            in_edge_selection=_selector(n.get("policy_in", "FIRST_AVAILABLE"), run, i, "in"),
                            out_edge_selection=_selector(n.get("policy_out", "FIRST_AVAILABLE"), run, i, "out"))
         elif ty == "combiner":
             pd = n.get("pd", [1])
             pdv = pd["const"] / float(Q) if isinstance(pd, dict) else _script(itertools.cycle(pd), 0, run, i, "pd", Q)
-            obj = Combiner(env, nid, node_setup_time=setup, target_quantity_of_each_item=list(n.get("recipe", [1, 1])),
+            obj = Combiner(env, nid, **ekw, node_setup_time=setup, target_quantity_of_each_item=list(n.get("recipe", [1, 1])),
                            processing_delay=pdv, blocking=n.get("blocking", True),
                            out_edge_selection=_selector(n.get("policy_out", "FIRST_AVAILABLE"), run, i, "out"))
         else:
@@ -424,6 +434,8 @@ def build(cfg, run):
             run.proc_info[id(p)] = (len(run.proc_info) + 1, run.node_idx.get(id(owner), -1), name)
         return env
     order = cfg.get("order") or ([["n", i] for i in range(len(nodes))] + [["e", j] for j in range(len(edges))])
+    if cfg.get("wiring") == "ctor":
+        order = [x for x in order if x[0] == "e"] + [x for x in order if x[0] == "n"]
     for what, i in order:
         (mk_node if what == "n" else mk_edge)(i)
     for j in cfg.get("connect_order") or range(len(edges)):
